@@ -106,7 +106,7 @@ def check(ctx: Ctx, ev: Evidence) -> list[Finding]:
                     if not ok:
                         out.append(Finding("C05-R2", f"dest handler | file_name := {rep[:80]} in {fn}", "the destination name is not built from the Metadata PDU's names with pure path operators behind the directory test", x.site, witness_of(a, e)))
         # R5
-        md_file = [x for x in evs if x.kind == "store" and x.name == "DestStateWrapper.step" and ename(x.args[0]) == "RECEIVING_FILE_DATA" and x.func.endswith("_handle_metadata_packet")]
+        md_file = [x for x in evs if x.kind == "store" and x.name == "DestStateWrapper.step" and ename(x.args[0]) == "RECEIVING_FILE_DATA" and e.label == ("state_machine", "METADATA")]
         if md_file:
             cr = [x for _, x in vfs if x.name == "vfs.create_file" and x.args[-1][0] == "ret"]
             tr = [x for _, x in vfs if x.name == "vfs.truncate_file" and x.args[-1][0] == "ret"]
